@@ -234,7 +234,7 @@ fn main() {
             let count = v["case"]["count"].as_u64().unwrap_or(4).to_string();
             let st = std::process::Command::new("cargo")
                 .current_dir(verif_dir.join("harness"))
-                .args(["+nightly", "miri", "run", "-q", "--target", "i686-unknown-linux-gnu", "-p", "mlv", "--bin", "mlv-miri", "--", if id == "C18" { "U32" } else if id == "C12" { "C12" } else { "L32" }, &count, &seed])
+                .args(["+nightly", "miri", "run", "-q", "--target", "i686-unknown-linux-gnu", "-p", "mlv", "--bin", "mlv-miri", "--", if id == "C18" { "U32" } else if id == "C12" { "C12" } else if id == "C13" { "C13" } else { "L32" }, &count, &seed])
                 .env("MIRIFLAGS", "-Zmiri-tree-borrows -Zmiri-disable-isolation -Zmiri-no-extra-rounding-error")
                 .env("CARGO_TARGET_DIR", verif_dir.join("build").join("miri"))
                 .env("CARGO_NET_OFFLINE", "true")
